@@ -59,11 +59,11 @@ class Gen:
 
     def valid(self, rng, kind):
         m = self._retarget(rng, rng.choice(self.single))
-        return V.wire_rx(kind, m, self.enc, self._ts(rng))
+        return V.wire_rx(kind, m, self.enc, self._ts(rng), direction=rng.choice("RRT"))
 
     def fastrun(self, rng, kind):
         m = self._retarget(rng, rng.choice(self.fast))
-        ps = V.wire_rx(kind, m, self.enc, self._ts(rng))
+        ps = V.wire_rx(kind, m, self.enc, self._ts(rng), direction=rng.choice("RRT"))
         r = rng.random()
         if len(ps) > 1 and r < 0.15:
             del ps[rng.randrange(len(ps))]          # lost frame
